@@ -17,6 +17,8 @@ func init() {
 				clStoreCursorsClosed(c)
 				clWorkersSignalDone(c)
 				clSkiplistCursorSession(c)
+				clCollectionWorker(c, "C07.c")
+				clTokenPairing(c)
 			})
 			c.Do("C07.d", "L1+L5 winner-only flush, exactly one winner", 10, func() { clDeleteNodeWinner(c); clSoftDeleteTable(c) })
 			c.Do("C07.f", "L1+L10 every terminated session reaches the destructor exactly once", 12, func() {
